@@ -296,6 +296,9 @@ func (r *runningRoutine) execute(
 		select {
 		case <-ctx.Done():
 			err = context.Canceled
+			// the previous instance may still be running: wait for it before
+			// closing exitedCh, which releases the instance waiting on us.
+			<-waitCh
 		case <-waitCh:
 		}
 	} else if ctx.Err() != nil {
